@@ -318,6 +318,40 @@ Definition await_handle (w : world) : await_result :=
   | _ => NoHandle
   end.
 
+(** a further await of the same handle (another awaiter, or the same one again), completing
+    [late] logical ticks after the first: RunningProcess.__await__ takes the exit time ITSELF,
+    after the task result is available ([WNowExited] follows [WYieldFromTask] in [await_prog]);
+    a program that returned without taking it would have nothing to put into the result *)
+Fixpoint takes_time_after_task (p : list awaitst) (seen_task : bool) : bool :=
+  match p with
+  | [] => false
+  | WYieldFromTask :: r => takes_time_after_task r true
+  | WNowExited :: r => if seen_task then true else takes_time_after_task r seen_task
+  | WReturnExited :: _ => false
+  | _ :: r => takes_time_after_task r seen_task
+  end.
+
+Definition await_late (w : world) (late : nat) : await_result :=
+  match await_handle w with
+  | Yields x =>
+      if takes_time_after_task await_prog false
+      then Yields (mkExited (returned x) (raised x) (created_at x) (exited_at x + late))
+      else BadUnpack
+  | r => r
+  end.
+
+Definition same_outcome (a b : await_result) : bool :=
+  match a, b with
+  | Yields x, Yields y =>
+      match returned x, returned y with Some u, Some v => Z.eqb u v | None, None => true | _, _ => false end
+      && match raised x, raised y with
+         | Some e, Some f => Z.eqb (match e with EWorker n | ESysExit n | EAioCancelled n => n | _ => 0 end)
+                                   (match f with EWorker n | ESysExit n | EAioCancelled n => n | _ => 0 end)
+         | None, None => true | _, _ => false end
+      && Nat.eqb (created_at x) (created_at y) && (exited_at x <=? exited_at y)%nat
+  | _, _ => false
+  end.
+
 (** ---- cleanup read off the trace *)
 Fixpoint count (x : ev) (l : list ev) : nat :=
   match l with [] => O | y :: r => (if ev_eqb x y then 1 else 0) + count x r end.
@@ -486,6 +520,9 @@ Record obs := mkObs {
   o_times : bool;             (* both times present and created <= exited *)
   o_tasks_left : nat;         (* helper tasks still pending *)
   o_listener : bool;          (* a log listener task was seen while the function ran *)
+  o_awaiters : bool;          (* every further awaiter of the same handle (before completion, in the iteration the
+                                 task finished, after the process exited, much later) got the same outcome, ordered
+                                 times, and none raised (true when there was no further awaiter) *)
   o_hang : Z                  (* 0: the handle was awaited; 1: blocked for ever in the executor's shutdown;
                                  2: idle for ever with the listener task pending; 4: `_run` suspended for ever at `await future`;
                                  3: stuck elsewhere *)
@@ -511,6 +548,7 @@ Definition agrees (sc : scenario) (o : obs) (w : world) : bool :=
       && Bool.eqb (created_at x <=? exited_at x)%nat (o_times o)
       && Nat.eqb (helpers_left (run_trace w)) (o_tasks_left o)
       && Bool.eqb (0 <? count VListenerStarted (run_trace w))%nat (o_listener o)
+      && Bool.eqb (forallb (fun n => same_outcome (await_handle w) (await_late w n)) [0%nat; 1%nat; 2%nat; 50%nat]) (o_awaiters o)
   | Hangs h => o_start_ok o && Z.eqb (o_hang o) (hang_code h)
   | Raises _ => Z.eqb (o_hang o) 0 && o_start_ok o && o_await_raised o
   | NoHandle => negb (o_start_ok o)
